@@ -10,6 +10,7 @@ import (
 	"github.com/tsawler/tabula/core"
 	"github.com/tsawler/tabula/pages"
 	"github.com/tsawler/tabula/text"
+	"github.com/tsawler/tabula/verifhook"
 )
 
 // PDFVersion represents a PDF version
@@ -168,6 +169,7 @@ func (r *Reader) Trailer() core.Dict {
 // Uses caching to avoid re-reading objects
 // Supports both uncompressed objects and objects in object streams (PDF 1.5+)
 func (r *Reader) GetObject(objNum int) (core.Object, error) {
+	verifhook.Point("obj.get", int64(objNum))
 	// Check cache first
 	if obj, ok := r.objCache[objNum]; ok {
 		return obj, nil
